@@ -138,6 +138,25 @@ type fnInfo struct {
 	nvals     int
 	calls     int
 	name      string
+	idx       map[ssa.Value]int
+}
+
+func (in *fnInfo) buildIndex(fn *ssa.Function) {
+	idx := map[ssa.Value]int{}
+	for _, p := range fn.Params {
+		idx[p] = len(idx)
+	}
+	for _, p := range fn.FreeVars {
+		idx[p] = len(idx)
+	}
+	for _, b := range fn.Blocks {
+		for _, ins := range b.Instrs {
+			if v, ok := ins.(ssa.Value); ok {
+				idx[v] = len(idx)
+			}
+		}
+	}
+	in.idx = idx
 }
 
 func (w *worker) fnInfo(fn *ssa.Function) *fnInfo {
@@ -395,6 +414,9 @@ func (p *pathCtx) branch(c *Term) bool {
 		copy(sib, p.trail)
 		sib[len(p.trail)] = decision{B: !v}
 		p.E.push(sib, om)
+		if p.E.debugForced {
+			fmt.Printf("FORK %s :: %s\n", p.i.whereNow(), c.str(3))
+		}
 	}
 	p.trail = append(p.trail, d)
 	if v {
@@ -459,6 +481,9 @@ func (p *pathCtx) concretize(t *Term, what string) uint64 {
 			copy(sib, p.trail)
 			sib[len(p.trail)] = decision{V: v, B: false, K: 1}
 			p.E.push(sib, om)
+			if p.E.debugForced {
+				fmt.Printf("FORK %s :: concretize %s\n", p.i.whereNow(), what)
+			}
 		}
 		p.trail = append(p.trail, decision{V: v, B: true, K: 1})
 		p.assume(eq)
